@@ -15,7 +15,8 @@ EXPLANATION = (
     "forms nsim < max_simul + c and compared: every uncounted spawn must be a no-run spawn. R12.2: nsim++ is paired with a started child "
     "watcher whose data is the task and whose callback holds the only decrement. R12.3: every element of a function-local static that a "
     "function writes on some path is written on all paths before the object is used (no state leaking between spawns). R12.4: the no-run "
-    "flag text is an option of the executor and its test bypasses prep_task/run_task; the MAX-SIMUL encoding round-trips over the whole field.")
+    "flag text is an option of the executor and its test bypasses prep_task/run_task; the MAX-SIMUL encoding round-trips over the whole field. R12.5: the child watcher whose callback frees the slot is registered for "
+    "termination only (trace = 0), so a stopped job keeps its slot.")
 NOT_DECIDED = "overlapping process lifetimes under all interleavings of timer expiry and child exit; the behaviour itself"
 TRUSTED = ["clang 14 parser/CFG builder", "echse-facts extractor", "python rule engines in /verif/sa"]
 LEVEL_TEXT = ("Static verdict on necessary structural clauses of C12: every real run is counted (guard implication over linear forms), "
